@@ -3,6 +3,8 @@
 Tie class T: the Lean model (lean/NiftyVerif/Model/Likelihood.lean, evaluated in `Float` by Driver/C11.lean) is compared with
 value / gradient / dense metric / transformation value / dense transformation Jacobian obtained from the real
 `Linearization.make_var(x, want_metric=True)` pushed through the real energy (within 1e-9 relative).
+Round 2 (design.d/C11.md): complex models in front of every energy (_c11_cplx.py) and all metric mechanisms cross-checked
+(apply / get_metric_at / JᴴJ of the transformation / assembled from the parts / independent Fisher; symmetric, PSD, Hermitian).
 Oracle (real code only): gradient vs. 4th-order central differences of the value; metric vs. JᴴJ of
 `get_transformation()`; metric vs. an independent Fisher information (closed forms validated against scipy.stats,
 pulled back analytically through the generated model functions); E(x1)-E(x2) vs. scipy.stats log-pdf differences;
@@ -14,6 +16,7 @@ import struct
 
 import numpy as np
 
+from . import _c11_cplx as C
 from . import _c11_gen as G
 from . import _c11_impl as A
 from . import _c11_ref as R
@@ -21,7 +24,7 @@ from . import _c11_ref as R
 ID = "C11"
 LEAN_MODULES = ["NiftyVerif.Core.Proto", "NiftyVerif.Model.Transc", "NiftyVerif.Model.Likelihood",
                 "NiftyVerif.Lemmas.LikelihoodScalar", "NiftyVerif.Lemmas.LikelihoodLists",
-                "NiftyVerif.Props.C11"]
+                "NiftyVerif.Props.C11", "NiftyVerif.Lemmas.LikelihoodComplex", "NiftyVerif.Props.C11Complex"]
 DRIVER = "Driver/C11.lean"
 TRANSLATORS = []
 _T = "NiftyVerif.C11."
@@ -34,7 +37,11 @@ except Exception:      # pragma: no cover
 RULE = ("random operator trees over the classic likelihood energies (Gaussian none/scaling/diagonal/sandwich inverse covariance, "
         "real/complex, with/without data; Poisson; Bernoulli; categorical; Student-t; inverse gamma; variable-covariance Gaussian "
         "real/complex, full Fisher or not; _SpecialGammaEnergy) wrapped by scaling, sums over shared/separate keys, point-wise and "
-        "matrix models (incl. a dense model from a single domain into the variable-covariance keys) and StandardHamiltonian, on RGSpace 1d/2d and UnstructuredDomain; positions generated inside each "
+        "matrix models (incl. a dense model from a single domain into the variable-covariance keys) and StandardHamiltonian, on RGSpace 1d/2d and UnstructuredDomain; "
+        "round 2: typed chains of complex models (complex/imaginary/negative ScalingOperator, complex DiagonalOperator, dense complex matrix, "
+        "FFT/Hartley/HarmonicTransform, Realizer/complexifier/Imaginizer/conjugation, holomorphic point-wise functions) in front of every energy "
+        "(complex Gaussian incl. complex-bun sandwich covariance, complex variable-covariance Gaussian, every real energy behind R->C->R chains), "
+        "single-operator Jacobians of every kind forced in every run, models over whole sums, scaled / summed / Hamiltonian-wrapped; positions generated inside each "
         "parameter range; non-trivial = every case (dimension >= 1); distinct by canonical JSON of the case")
 TRUSTED_BASE = [
     "Lean 4.33 kernel; axioms propext/Classical.choice/Quot.sound only (audited every run)",
@@ -86,7 +93,7 @@ def kinds_of(case):
 
 def wrappers_of(e, acc=None):
     acc = set() if acc is None else acc
-    if e["k"] in ("scale", "chain", "ham", "lin", "vmodel"):
+    if e["k"] in ("scale", "chain", "ham", "lin", "vmodel", "cmodel"):
         acc.add(e["k"])
         wrappers_of(e["e"], acc)
     elif e["k"] == "sum":
@@ -163,6 +170,12 @@ def _oracle(case):
     n = len(o["grad"])
     if abs(o["val_imag"]) > 1e-12 * (1 + abs(o["val"])):
         return (f"energy value has imaginary part {o['val_imag']}", sig(case, "value-imag"))
+    # 0. nothing imaginary may be dropped silently on real-typed keys (gradient / metric applied to real directions)
+    if o["grad_dropped_imag"] > 1e-10 * (1 + np.max(np.abs(o["grad"]))):
+        return (f"gradient has imaginary part {o['grad_dropped_imag']:.3e} on a real-valued key", sig(case, "gradient-imag"))
+    if o["met"] is not None and o["met_dropped_imag"] > 1e-10 * (1 + np.max(np.abs(o["met"]))):
+        return (f"metric maps a real direction of a real-valued key to imaginary part {o['met_dropped_imag']:.3e}",
+                sig(case, "metric-imag"))
     # 1. exact gradient
     try:
         g = fd_gradient(case)
@@ -189,16 +202,59 @@ def _oracle(case):
     okF, msg = _close(o["met"], F, 1e-8)
     if not approx and not okF:
         return (f"metric differs from the Fisher information: {msg}", sig(case, "fisher"))
+    # 3b. every metric is a symmetric positive semi-definite real-bilinear form (dense, real coordinates), and
+    #     Hermitian through NIFTy's own vdot:  <u, M v> = conj <v, M u>,  <v, M v> real >= 0
+    r = _form_checks(case, o["met"], "apply")
+    if r is not None:
+        return r
+    s1, s2, s3 = o["herm"]
+    hs = 1e-9 * (1 + abs(s1) + abs(s2) + abs(s3))
+    if abs(s1.real - s2.real) > hs or s3.real < -hs:
+        return (f"metric is not a symmetric positive form: <u,Mv>={s1!r}, <v,Mu>={s2!r}, <v,Mv>={s3!r}", sig(case, "metric-hermitian"))
+    if holomorphic(case) and (abs(s1.imag + s2.imag) > hs or abs(s3.imag) > hs):
+        return (f"metric of a holomorphic model on complex keys is not Hermitian: <u,Mv>={s1!r}, <v,Mu>={s2!r}, <v,Mv>={s3!r}",
+                sig(case, "metric-hermitian"))
+    # 3c. mechanism (4): the metric assembled from its parts with forward applications only (exact, always)
+    try:
+        with_flat = G.with_flat(case)
+        dom_ = A.mkdom(case["dom"])
+        x_, _ = A.position(with_flat, A.build(case["e"], dom_))
+        Mp = A.parts_metric(case["e"], dom_, x_)
+    except Exception as e:
+        return (f"a part of the energy raised on a valid input: {type(e).__name__}", sig(case, "error", error=type(e).__name__))
+    okQ, msg = _close(o["met"], Mp, 1e-8)
+    if not okQ:
+        return (f"metric differs from Jᴴ_model · M_inner(model(x)) · J_model assembled from the parts: {msg}", sig(case, "metric-parts"))
     # 4. metric = pull-back of the identity through the transformation
     isham = case["e"]["k"] == "ham"
     if not isham:
         if o["tjac"] is None:
             return ("likelihood has no transformation", sig(case, "trafo-missing"))
         JJ = o["tjac"].T @ o["tjac"]
+        # the sampling dtype announced with the transformation is never a real one for complex data (None = unknown,
+        # e.g. SandwichOperator inverse covariances, is legitimate; not a sampled quantity)
+        if all(l["k"] == "gauss" and l.get("cplx") for l in G.leaves(case["e"])):
+            dts = list(o["tdtype"].values()) if isinstance(o["tdtype"], dict) else [o["tdtype"]]
+            if any(d not in (None, "complex128") for d in dts):
+                return (f"transformation of a complex Gaussian announces sampling dtype {o['tdtype']}", sig(case, "trafo-dtype"))
         exact = not G.has(case["e"], lambda l: l["k"] == "varcov" and l["full"])
         okP, msg = _close(o["met"], JJ, 1e-8)
         if exact and not okP:
             return (f"metric differs from JᴴJ of get_transformation(): {msg}", sig(case, "pullback"))
+        # mechanism (2): get_metric_at(x) — equals JᴴJ of the transformation always (exact), the apply() metric
+        # unless the full-Fisher variable-covariance metric is attached (then only in expectation, checked below)
+        if o["met_at"] is not None:
+            r = _form_checks(case, o["met_at"], "get_metric_at")
+            if r is not None:
+                return r
+            if o["met_at_dropped_imag"] > 1e-10 * (1 + np.max(np.abs(o["met_at"]))):
+                return ("get_metric_at maps a real direction of a real-valued key to a complex one", sig(case, "metric-imag", which="get_metric_at"))
+            okA, msg = _close(o["met_at"], JJ, 1e-8)
+            if not okA:
+                return (f"get_metric_at(x) differs from JᴴJ of get_transformation(): {msg}", sig(case, "metric-at-vs-pullback"))
+            okB, msg = _close(o["met_at"], o["met"], 1e-8)
+            if exact and not okB:
+                return (f"get_metric_at(x) differs from the metric attached by apply(want_metric=True): {msg}", sig(case, "metric-at-vs-apply"))
         # documented local approximation: equality in expectation over the data
         if case["e"]["k"] == "varcov":
             EJJ = expected_pullback(case)
@@ -228,6 +284,42 @@ def _oracle(case):
     return None
 
 
+def _form_checks(case, M, which):
+    """symmetric + positive semi-definite in real coordinates"""
+    M = np.asarray(M, float)
+    if not np.all(np.isfinite(M)):
+        return (f"{which} metric is not finite", sig(case, "metric-symmetry", which=which))
+    scale = max(np.max(np.abs(M)), 1e-300) if M.size else 1.0
+    asym = np.max(np.abs(M - M.T)) if M.size else 0.0
+    if asym > 1e-9 * scale:
+        return (f"{which} metric is not symmetric (as a real-bilinear form): max |M - Mᵀ| = {asym:.3e} at scale {scale:.3e}",
+                sig(case, "metric-symmetry", which=which))
+    ev = np.linalg.eigvalsh((M + M.T) / 2)
+    if M.size and ev[0] < -1e-9 * scale:
+        return (f"{which} metric is not positive semi-definite: smallest eigenvalue {ev[0]:.3e} at scale {scale:.3e}",
+                sig(case, "metric-psd", which=which))
+    return None
+
+
+def holomorphic(case):
+    """all keys complex and every model holomorphic (complex-linear Jacobians): the metric is then complex-linear Hermitian"""
+    if not case["cplx"] or not all(case["cplx"].values()):
+        return False
+
+    def walk(e):
+        k = e["k"]
+        if k in ("scale", "ham"):
+            return walk(e["e"])
+        if k == "sum":
+            return all(walk(s_) for s_ in e["es"])
+        if k == "chain":
+            return all(f["f"] in ("id", "scal") for f in e["f"].values()) and walk(e["e"])
+        if k == "cmodel":
+            return all(op["o"] in ("cscal", "cdiag", "cmat", "ptw", "ft") for ops in e["ops"].values() for op in ops) and walk(e["e"])
+        return k in ("gauss",)
+    return walk(case["e"])
+
+
 def _subcase(case, e):
     keys = set()
     for l in G.leaves(e):
@@ -254,6 +346,24 @@ def shrink(case):
     if k in ("scale", "ham") and e["e"]["k"] in ("scale", "sum"):
         for sub_ in ([e["e"]["e"]] if e["e"]["k"] == "scale" else e["e"]["es"]):
             cands.append(dict(e, e=sub_))
+    if k == "cmodel":
+        # shorter chains of the same type (the positions stay; the result must still be a valid case), simpler inner energy
+        rg = case["dom"]["t"] == "rg"
+        for key, ops in sorted(e["ops"].items()):
+            cin = bool(case["cplx"].get(key))
+            t0 = C.chain_ok(ops, cin, rg)
+            for i in range(len(ops)):
+                o2 = ops[:i] + ops[i + 1:]
+                if C.chain_ok(o2, cin, rg) == t0:
+                    c2 = dict(case, e=dict(e, ops=dict(e["ops"], **{key: o2})))
+                    if C.valid(c2):
+                        yield c2
+        if e["e"]["k"] == "scale":
+            yield dict(case, e=dict(e, e=e["e"]["e"]))
+    if k in ("scale", "ham") and e["e"]["k"] == "cmodel":
+        for c2 in shrink(dict(case, e=e["e"])):
+            if c2["e"]["k"] == "cmodel":
+                yield dict(c2, e=dict(e, e=c2["e"]))
     for c in cands:
         sc = _subcase(case, c)
         if sc is not None:
@@ -300,10 +410,25 @@ def _branch_stats(ctx, e):
         for f in e["f"].values():
             ctx.stat("f:" + f["f"])
         _branch_stats(ctx, e["e"])
+    elif k == "cmodel":
+        for key, ops in e["ops"].items():
+            for op in ops:
+                ctx.stat("cop:" + (op["kind"] if op["o"] == "ft" else "ptw-" + op["f"] if op["o"] == "ptw"
+                                   else "f-" + op["spec"]["f"] if op["o"] == "f" else op["o"]))
+            if len(ops) == 1:
+                g = ops[0].get("g")
+                ctx.stat("cmodel:jac-exactly-" + ("scaling-" + ("real" if g[1] == 0 else "imag" if g[0] == 0 else "complex")
+                                                  if ops[0]["o"] == "cscal" else ops[0]["o"]))
+            ctx.stat("cmodel:chain-len-%d" % len(ops))
+            ctx.stat("cmodel:" + ("linear" if C.is_linear(ops) else "nonlinear"))
+        ctx.stat("cmodel:over-" + ("composite" if e["e"]["k"] in ("sum", "scale") else "leaf"))
+        _branch_stats(ctx, e["e"])
     elif k in ("lin", "vmodel"):
         _branch_stats(ctx, e["e"])
     elif k == "gauss":
         ctx.stat("gauss:icov=" + e["icov"] + (",cplx" if e.get("cplx") else "") + (",nodata" if e.get("d") is None else ""))
+        if e["icov"] == "csand":
+            ctx.stat("gauss:csand-bun=" + "+".join(op["o"] for op in e["bunops"]))
     elif k == "varcov":
         ctx.stat("varcov:" + ("cplx" if e["cplx"] else "real") + ("/full-fisher" if e["full"] else "/trafo-metric"))
     elif k == "sgamma":
@@ -318,7 +443,8 @@ def _branch_stats(ctx, e):
 
 def run_cases(ctx, cases, do_oracle=True):
     lines = [G.model_line(c) for c in cases]
-    outs = ctx.model(DRIVER, lines)
+    outs_ = iter(ctx.model(DRIVER, [l for l in lines if l is not None]))
+    outs = [None if l is None else next(outs_) for l in lines]
     for c, mo in zip(cases, outs):
         for k in kinds_of(c):
             ctx.stat("leaf:" + k)
@@ -330,7 +456,11 @@ def run_cases(ctx, cases, do_oracle=True):
             ctx.stat("complex")
         _branch_stats(ctx, c["e"])
         o, err = _measure(c)
-        if err is not None or "error" in mo:
+        if mo is None:
+            # non-linear complex model: outside the list model — oracle only
+            ctx.stat("model:not-expressible(oracle only)")
+            ctx.case(c, nontrivial=True)
+        elif err is not None or "error" in mo:
             ctx.compare(c, {"error": (err or "").split(":")[0]} if err else {"ok": True},
                         {"error": mo.get("error")} if "error" in mo else {"ok": True}, note="C11 model vs implementation")
         else:
@@ -390,6 +520,13 @@ def run(ctx):
         cases.append(G.gen_vmodel_case(ctx.rng, small=True))
     for _ in range(ctx.n(50, 700)):
         cases.append(G.gen_case(ctx.rng, small=ctx.quick))
+    # round 2: complex data and complex models in front of every energy (forced single-operator Jacobians, then random chains)
+    for f in C.FORCED:
+        for _ in range(ctx.n(1, 3)):
+            cases.append(C.gen_ccase(ctx.rng, small=True, force=f))
+            ctx.stat("cmodel:forced")
+    for _ in range(ctx.n(60, 600)):
+        cases.append(C.gen_ccase(ctx.rng, small=ctx.quick))
     B = 100
     with contextlib.redirect_stdout(io.StringIO()):
         for i in range(0, len(cases), B):
@@ -405,3 +542,9 @@ def search(ctx):
             if r is not None:
                 ctx.counterexample(c, *r)
                 return
+    for f in list(C.FORCED) * 3 + [None] * 150:
+        c = C.gen_ccase(ctx.rng, small=True, force=f)
+        r = oracle(c)
+        if r is not None:
+            ctx.counterexample(c, *r)
+            return
